@@ -6,6 +6,7 @@ import Driver.Store
 import Driver.Group
 import Driver.Actor
 import Driver.Cluster
+import Driver.Sim
 /- `dcdriver`: reads a case file on stdin, answers every line with the model's output. -/
 namespace Driver
 
@@ -19,6 +20,7 @@ inductive Dom where
   | group (s : GroupDom.State)
   | actor (s : ActorDom.State)
   | cluster (s : ClusterDom.State)
+  | sim (s : SimDom.State)
 
 def newDom (name : String) (params : List String) : Dom :=
   match name with
@@ -30,6 +32,7 @@ def newDom (name : String) (params : List String) : Dom :=
   | "group" => .group {}
   | "actor" => .actor {}
   | "cluster" => .cluster {}
+  | "sim" => .sim {}
   | _ => .none
 
 def stepDom (d : Dom) (toks : List String) : Dom × String :=
@@ -43,6 +46,7 @@ def stepDom (d : Dom) (toks : List String) : Dom × String :=
   | .group s => let (s', o) := GroupDom.step s toks; (.group s', o)
   | .actor s => let (s', o) := ActorDom.step s toks; (.actor s', o)
   | .cluster s => let (s', o) := ClusterDom.step s toks; (.cluster s', o)
+  | .sim s => let (s', o) := SimDom.step s toks; (.sim s', o)
 
 partial def loop (h : IO.FS.Stream) (out : IO.FS.Stream) (d : Dom) : IO Unit := do
   let line ← h.getLine
